@@ -60,11 +60,12 @@ GrpcCode(st) ==
 -----------------------------------------------------------------------------
 (* HTTP exchange outcomes: o = [kind, status]                                                   *)
 (*   "status"     a complete response with that status arrived                                  *)
-(*   "truncated"  status line and headers arrived, the body broke off                           *)
+(*   "truncated"  status line and headers arrived, the body broke off (connection closed)       *)
+(*   "resetbody"  status line and headers arrived, the connection was reset in mid-body          *)
 (*   "refused" | "reset" | "timeout"   no response                                              *)
 ResponseArrived(o) == o.kind = "status"
 HttpSample(o) ==
-    LET proto == IF o.kind \in {"status", "truncated"} THEN o.status ELSE 0
+    LET proto == IF o.kind \in {"status", "truncated", "resetbody"} THEN o.status ELSE 0
         nz    == ResponseArrived(o)
     IN  IF Variant = "swap" THEN [proto |-> IF nz THEN 0 ELSE 999, netzero |-> proto = 0]
         ELSE [proto |-> proto, netzero |-> nz]
@@ -82,17 +83,24 @@ AutoTag(depth, elems) ==
     IN  "/" \o Join(SubSeq(elems, 1, Min(d, Len(elems))))
 
 \* at = [enabled, depth, notagonly]; the sample's tags in order (phout joins them with "|")
-Tags(ammoTag, at, elems) ==
+\* (nopath: the URI has no path at all - query only, or absolute-form without a path - so there is nothing to derive
+\* an auto-tag from; the negative control "no_empty_auto" forgets __EMPTY__ whenever auto-tagging ran)
+TagsP(ammoTag, at, elems, nopath) ==
     LET own  == IF ammoTag = "" THEN <<>> ELSE <<ammoTag>>
-        auto == IF at.enabled /\ (~at.notagonly \/ ammoTag = "") THEN <<AutoTag(at.depth, elems)>> ELSE <<>>
+        runs == at.enabled /\ (~at.notagonly \/ ammoTag = "")
+        auto == IF runs /\ ~nopath THEN <<AutoTag(at.depth, elems)>> ELSE <<>>
         t    == own \o auto
-    IN  IF t = <<>> /\ Variant # "no_empty" THEN <<"__EMPTY__">> ELSE t
+    IN  IF t = <<>> /\ Variant # "no_empty" /\ ~(Variant = "no_empty_auto" /\ runs) THEN <<"__EMPTY__">> ELSE t
+Tags(ammoTag, at, elems) == TagsP(ammoTag, at, elems, FALSE)
 
 NoAuto == [enabled |-> FALSE, depth |-> 2, notagonly |-> TRUE]
 
 -----------------------------------------------------------------------------
 (* Cases (what one shot is) and the samples it must report.                                     *)
-(*   [kind |-> "http", out]                      plain http gun, untagged ammo, no auto-tag     *)
+(*   [kind |-> "http", out]                      plain http gun, untagged ammo, no auto-tag;    *)
+(*                                               optional side = [answlog, trace]: the gun's    *)
+(*                                               answer log / httptrace (dump + trace) are on - *)
+(*                                               they only observe, the sample is the same      *)
 (*   [kind |-> "tag", fmt, tag, at, elems, query, uri]   plain http gun against a 200 target    *)
 (*   [kind |-> "grpc", status]                   grpc gun, ammo tagged "g", target answers status*)
 (*   [kind |-> "grpcbad", what]                  grpc gun: unknown method / ill-typed payload   *)
@@ -150,7 +158,7 @@ Expected(c) ==
                 one == <<Sample(Tags("", NoAuto, <<>>), s.proto, NetOf(s.netzero))>>
             IN  IF Variant = "double" /\ Failed(c.out) THEN one \o one ELSE one
       [] c.kind = "tag" ->
-            <<Sample(Tags(c.tag, c.at, c.elems), 200, "zero")>>
+            <<Sample(TagsP(c.tag, c.at, c.elems, "nopath" \in DOMAIN c /\ c.nopath), 200, "zero")>>
       [] c.kind = "grpc" ->
             <<Sample(<<"g">>, GrpcCode(c.status), "zero")>>
       [] c.kind = "grpcfail" ->                     \* statuses produced by the client itself
@@ -175,14 +183,24 @@ Expected(c) ==
 SentSteps(c) == LET ex == Executed(c)
                 IN  {IF c.kind = "httpscn" THEN ex[k].name ELSE ex[k].tag : k \in {j \in DOMAIN ex : ~PreFails(ex[j])}}
 
+\* A scenario shot whose gun / instance context is cancelled while it runs - during a step's sleep, during an exchange,
+\* between two steps: [kind |-> "scncancel", gun, name, steps <<labels>>, when].  Whatever ends the shot, and wherever:
+\* the steps that were executed are a prefix s1..sp of the scenario, and each of them reported exactly ONE sample, in
+\* order; the target saw requests of s1..s(p-1) at least and of nothing beyond sp.
+IsCancel(c) == c.kind = "scncancel"
+CancelTagsOK(c, rep) == /\ Len(rep) <= Len(c.steps)
+                        /\ \A k \in DOMAIN rep : rep[k].tags # <<>> /\ rep[k].tags[1] = c.name \o "." \o c.steps[k]
+CancelSentOK(c, p, seen) == /\ seen \subseteq {c.steps[k] : k \in 1..p}
+                            /\ {c.steps[k] : k \in 1..(IF p > 0 THEN p - 1 ELSE 0)} \subseteq seen
+
 \* cases for which the statement fixes the NUMBER of samples only
-CountOnly(c) == c.kind = "grpcbad"
-ExpectedCount(c) == IF CountOnly(c) THEN 1 ELSE Len(Expected(c))
+CountOnly(c) == c.kind = "grpcbad" \/ IsCancel(c)
+ExpectedCount(c) == IF IsCancel(c) THEN Len(c.steps) ELSE IF CountOnly(c) THEN 1 ELSE Len(Expected(c))
 
 (* Comparison of what the aggregator got (rep: <<[tags, proto, net]>>) with Expected(c).        *)
 \* the first tag of a scenario sample names scenario and step; plain guns: the whole tag list
 TagsMatch(c, got, want) == IF c.kind \in {"httpscn", "grpcscn"} THEN got # <<>> /\ got[1] = want[1] ELSE got = want
-CountOK(c, rep) == Len(rep) = ExpectedCount(c)
+CountOK(c, rep) == IF IsCancel(c) THEN CancelTagsOK(c, rep) ELSE Len(rep) = ExpectedCount(c)
 ProtoOK(c, rep) == CountOnly(c) \/ \A k \in DOMAIN rep : k \in DOMAIN Expected(c) => rep[k].proto = Expected(c)[k].proto
 NetOK(c, rep)   == CountOnly(c) \/ \A k \in DOMAIN rep : k \in DOMAIN Expected(c) =>
                                        \/ Expected(c)[k].net = "any"
@@ -197,13 +215,14 @@ VARIABLES ph,      \* instance -> "idle" | "armed" (holds ammo) | "shooting"
           shots,   \* instance -> shots finished
           myid,    \* instance -> id of the ammo it holds
           ctr,     \* the provider's id counter (per instance when Variant = "id_local")
-          ids      \* ids handed out so far, with multiplicity: id -> how often
-vars == <<ph, cur, rep, shots, myid, ctr, ids>>
+          ids,     \* ids handed out so far, with multiplicity: id -> how often
+          cancelled \* instance -> its context was cancelled during the current / last shot
+vars == <<ph, cur, rep, shots, myid, ctr, ids, cancelled>>
 
 NoCase == [kind |-> "none"]
 Init == /\ ph = [i \in Inst |-> "idle"] /\ cur = [i \in Inst |-> NoCase] /\ rep = [i \in Inst |-> <<>>]
         /\ shots = [i \in Inst |-> 0] /\ myid = [i \in Inst |-> 0]
-        /\ ctr = [i \in Inst |-> 0] /\ ids = <<>>
+        /\ ctr = [i \in Inst |-> 0] /\ ids = <<>> /\ cancelled = [i \in Inst |-> FALSE]
 
 Bump(f, k) == IF k \in DOMAIN f THEN [f EXCEPT ![k] = @ + 1] ELSE (k :> 1) @@ f
 
@@ -220,23 +239,36 @@ Acquire(i) == /\ ph[i] = "idle" /\ shots[i] < MaxShots
                  IN  /\ ctr' = [ctr EXCEPT ![k] = @ + 1]
                      /\ AcquireEff(i, ctr[k] + 1)
               /\ ph' = [ph EXCEPT ![i] = "armed"]
-              /\ UNCHANGED <<cur, rep, shots>>
+              /\ UNCHANGED <<cur, rep, shots, cancelled>>
 
 ShootBegin(i) == /\ ph[i] = "armed"
                  /\ \E c \in Catalogue : BeginEff(i, c)
+                 /\ cancelled' = [cancelled EXCEPT ![i] = FALSE]
                  /\ UNCHANGED <<shots, myid, ctr, ids>>
 
 \* the gun reports the next sample its case demands
 Report(i) == /\ ph[i] = "shooting" /\ Len(rep[i]) < Len(Expected(cur[i]))
              /\ LET e == Expected(cur[i])[Len(rep[i]) + 1]
                 IN  ReportEff(i, [tags |-> e.tags, proto |-> e.proto, net |-> IF e.net = "zero" THEN 0 ELSE 999])
-             /\ UNCHANGED <<ph, cur, shots, myid, ctr, ids>>
+             /\ UNCHANGED <<ph, cur, shots, myid, ctr, ids, cancelled>>
 
 ShootEnd(i) == /\ ph[i] = "shooting" /\ Len(rep[i]) = Len(Expected(cur[i]))
                /\ EndEff(i)
-               /\ UNCHANGED <<cur, rep, myid, ctr, ids>>
+               /\ UNCHANGED <<cur, rep, myid, ctr, ids, cancelled>>
 
-Next == \E i \in Inst : Acquire(i) \/ ShootBegin(i) \/ Report(i) \/ ShootEnd(i)
+\* the instance's context is cancelled while a scenario shot runs - during a step's sleep, an exchange, between steps
+Cancel(i) == /\ ph[i] = "shooting" /\ ~cancelled[i] /\ cur[i].kind \in {"httpscn", "grpcscn"}
+             /\ cancelled' = [cancelled EXCEPT ![i] = TRUE]
+             /\ UNCHANGED <<ph, cur, rep, shots, myid, ctr, ids>>
+\* ... which may end the shot after any step; the steps executed so far have reported, nothing else is reported
+\* (negative control "double_cancel": the step that was interrupted in its sleep is reported once more)
+EndEarly(i) == /\ ph[i] = "shooting" /\ cancelled[i]
+               /\ EndEff(i)
+               /\ IF Variant = "double_cancel" /\ rep[i] # <<>>
+                  THEN rep' = [rep EXCEPT ![i] = Append(@, @[Len(@)])] ELSE rep' = rep
+               /\ UNCHANGED <<cur, myid, ctr, ids, cancelled>>
+
+Next == \E i \in Inst : Acquire(i) \/ ShootBegin(i) \/ Report(i) \/ ShootEnd(i) \/ Cancel(i) \/ EndEarly(i)
 Spec == Init /\ [][Next]_vars
 
 \* ---- properties ----
@@ -248,7 +280,11 @@ TypeOK == /\ \A i \in Inst : ph[i] \in {"idle", "armed", "shooting"}
 
 \* a finished shot reported exactly one sample per request it fired; a running one never more
 OneSamplePerRequest ==
-    \A i \in Inst : /\ (ph[i] = "idle" /\ cur[i] # NoCase) => Len(rep[i]) = Fired(cur[i])
+    \A i \in Inst : /\ (ph[i] = "idle" /\ cur[i] # NoCase /\ ~cancelled[i]) => Len(rep[i]) = Fired(cur[i])
+                    \* a cancelled shot: the executed steps are a prefix, one sample each, in order
+                    /\ (ph[i] = "idle" /\ cur[i] # NoCase /\ cancelled[i]) =>
+                          /\ Len(rep[i]) <= Fired(cur[i])
+                          /\ \A k \in DOMAIN rep[i] : rep[i][k].tags = Expected(cur[i])[k].tags
                     /\ ph[i] = "shooting" => Len(rep[i]) <= Fired(cur[i])
 
 \* ids of one provider are pairwise distinct
@@ -259,7 +295,7 @@ HttpCoding ==
     \A i \in Inst : cur[i].kind = "http" =>
         \A k \in DOMAIN rep[i] :
             /\ (rep[i][k].net = 0) <=> ResponseArrived(cur[i].out)
-            /\ rep[i][k].proto = (IF cur[i].out.kind \in {"status", "truncated"} THEN cur[i].out.status ELSE 0)
+            /\ rep[i][k].proto = (IF cur[i].out.kind \in {"status", "truncated", "resetbody"} THEN cur[i].out.status ELSE 0)
 
 \* the function agrees with the table of docs/eng/grpc-generator.md, row by row (status 0..16)
 DocTable == <<200, 499, 500, 400, 504, 404, 409, 403, 429, 400, 409, 400, 501, 500, 503, 500, 401>>
